@@ -181,7 +181,7 @@ def gen_C09(rng, tier):
         p = Prog('c09_x%d' % i)
         p.add('seedrng %d' % (i + 7))
         # initializers
-        inits = []
+        inits = []; init_lines = []
         for _ in range(4):
             kind = rng.choice(['full', 'uniform', 'normal', 'heuniform', 'henormal', 'xavieruniform', 'xaviernormal'])
             if rng.random() < 0.25: arg = 'nil'
@@ -191,7 +191,7 @@ def gen_C09(rng, tier):
             elif kind in ('heuniform', 'henormal'): arg = str(rng.choice(INTS))
             else: arg = '%d %d' % (rng.choice(INTS), rng.choice(INTS))
             ini = p.bind('init %s %s' % (kind, arg), 'i')
-            inits.append(ini)
+            inits.append(ini); init_lines.append(p.lines[-1])
             d = rand_ints(rng, 3)
             if prod([abs(v) or 1 for v in d]) <= 300:
                 r = p.bind('initcall %s %s' % (ini, ints(d))); p.add('obs %s' % r)
@@ -202,7 +202,9 @@ def gen_C09(rng, tier):
             else:
                 opts = ''
                 if rng.random() < 0.4: opts += ' W=' + rng.choice(inits + ['nil'])
-                if rng.random() < 0.4: opts += ' B=' + rng.choice(inits + ['nil'])
+                # a random Bias initializer of another family than the Weight initializer cannot be replayed from the
+                # raw draws (see gen/comp.py): Bias is constant here
+                if rng.random() < 0.4: opts += ' B=' + rng.choice([x for x, ln in zip(inits, init_lines) if ' full ' in ln] + ['nil'])
                 f = p.bind('fc %d %d%s' % (rng.choice(INTS), rng.choice(INTS), opts), 'f')
             xs = []
             for _ in range(rng.randint(0, 2)):
